@@ -481,24 +481,12 @@ func (r *registryState) waitFor(pred func() bool, d time.Duration) bool {
 	return true
 }
 
-// quiesce waits until the service watcher has delivered the configuration computed from the current
-// registry state and the table loop has finished processing it. It relies only on the shape of the
-// watchers: each is a sequential loop "query; send on an unbuffered channel; query again", so a new query
-// means the previous answer has been taken by the table loop, and the table loop handles one event at a
-// time, so a later event being taken means the earlier one has been fully processed. Two index-only bumps
-// of the KV tree ("touch", which watchKV publishes because the index changed) provide the later events.
+// quiesce waits until both watchers have delivered what they computed from the current registry state: each
+// is a sequential loop "query; (send on an unbuffered channel;) query again", so a query that arrives after the
+// answer with the current index was served means that answer has been handed to - and taken by - the table
+// loop. Whether the table loop has also finished processing it is asked of the child process itself (command
+// `idle`: the goroutine of main.watchBackend is parked in its select), see awaitIdle in pipeline.go. Nothing is
+// sent through the loop for the sake of the observation.
 func (r *registryState) quiesce(d time.Duration) bool {
-	if !r.waitFor(func() bool { return r.hDelivered == r.hIndex }, d) {
-		return false
-	}
-	for k := 0; k < 2; k++ {
-		if !r.waitFor(func() bool { return r.kvDelivered == r.kvIndex }, d) {
-			return false
-		}
-		r.mu.Lock()
-		r.kvIndex++
-		r.cond.Broadcast()
-		r.mu.Unlock()
-	}
-	return r.waitFor(func() bool { return r.kvDelivered == r.kvIndex }, d)
+	return r.waitFor(func() bool { return r.hDelivered == r.hIndex && r.kvDelivered == r.kvIndex }, d)
 }
